@@ -142,13 +142,14 @@ Lemma run_op_steps sc m e pool o :
   | _ => e_steps e
   end.
 Proof.
-  destruct o as [|x k|i x k|i|]; simpl.
+  destruct o as [|x k|i x k|i| |]; simpl.
   - reflexivity.
   - unfold decodes. destruct (decode_arg sc m x) as [a|]; simpl; auto.
   - destruct (decode_arg sc m x) as [a|]; simpl; auto.
     destruct (nth_error pool i); reflexivity.
   - destruct (nth_error pool i); reflexivity.
   - destruct (flat_actions m); reflexivity.
+  - reflexivity.
 Qed.
 
 Lemma run_ops_steps sc m ops : forall e pool,
@@ -162,7 +163,7 @@ Proof.
   specialize (IH e' pool').
   destruct (run_ops sc m (e', pool') r) as [ep'' outs] eqn:E2.
   cbn [fst] in *. rewrite IH, HS.
-  destruct o as [|x k|i x k|i|]; cbn [steps_since_reset]; reflexivity.
+  destruct o as [|x k|i x k|i| |]; cbn [steps_since_reset]; reflexivity.
 Qed.
 
 Lemma C06_steps_proof : C06_steps_stmt.
